@@ -298,6 +298,9 @@ class TrackedDict(TrackedValue, dict):
     pop = tracked_method(dict.pop)
     popitem = tracked_method(dict.popitem)
     clear = tracked_method(dict.clear)
+    def __ior__(self, other):
+        self.update(other)
+        return self
     def get_untracked(self):
         return {key: val.get_untracked() if isinstance(val, TrackedValue) else val
                 for key, val in self.items()}
@@ -308,9 +311,21 @@ class TrackedList(TrackedValue, list):
         list.__init__(self, (self.make(obj, attr, val) for val in value))
     def __reduce__(self):
         return list, (list(self),)
-    __setitem__ = tracked_method(list.__setitem__)
+    _setitem = tracked_method(list.__setitem__)
+    def __setitem__(self, index, value):
+        if isinstance(index, slice) and not isinstance(value, list): value = list(value)
+        return self._setitem(index, value)
     __delitem__ = tracked_method(list.__delitem__)
-    extend = tracked_method(list.extend)
+    _extend = tracked_method(list.extend)
+    def extend(self, items):
+        return self._extend(items if isinstance(items, list) else list(items))
+    def __iadd__(self, items):
+        self.extend(items)
+        return self
+    def __imul__(self, n):
+        list.__imul__(self, n)
+        self._changed_()
+        return self
     append = tracked_method(list.append)
     pop = tracked_method(list.pop)
     remove = tracked_method(list.remove)
